@@ -82,6 +82,18 @@ const (
 	E_VerifyMetaLeaseSet = 123
 	E_VerifyEncryptedLeaseSet = 124
 	E_VerifyOfflineSignature = 125
+	E_B32Encode = 130
+	E_B32Decode = 131
+	E_B32EncodeNoPad = 132
+	E_B32DecodeNoPad = 133
+	E_B32EncodeSafeLen = 134
+	E_B32DecodeSafe = 135
+	E_B32DecodeSafeNoPad = 136
+	E_B64Encode = 137
+	E_B64Decode = 138
+	E_B64DecodeSafe = 139
+	E_DestAddresses = 140
+	E_RouterAddrAccessors = 141
 )
 
 var entryNames = map[int]string{
@@ -165,4 +177,16 @@ var entryNames = map[int]string{
 	123: "VerifyMetaLeaseSet",
 	124: "VerifyEncryptedLeaseSet",
 	125: "VerifyOfflineSignature",
+	130: "B32Encode",
+	131: "B32Decode",
+	132: "B32EncodeNoPad",
+	133: "B32DecodeNoPad",
+	134: "B32EncodeSafeLen",
+	135: "B32DecodeSafe",
+	136: "B32DecodeSafeNoPad",
+	137: "B64Encode",
+	138: "B64Decode",
+	139: "B64DecodeSafe",
+	140: "DestAddresses",
+	141: "RouterAddrAccessors",
 }
